@@ -114,6 +114,8 @@ func (s *Server) ServeConn(c net.Conn) error {
 	sc.currentWindow = sc.maxWindow
 
 	sc.st.Reset()
+	// the peer's settings start from the protocol defaults
+	sc.clientS.Reset()
 	sc.st.SetMaxWindowSize(uint32(sc.maxWindow))
 	sc.st.SetMaxConcurrentStreams(uint32(s.cnf.MaxConcurrentStreams))
 
